@@ -1,6 +1,76 @@
 """C12 — topological sort: correct across scopes, stable, deterministic, atomic.
 
-(decision log is completed at the end of this docstring — see LOG below)
+Decided by: Coq theorems (coq/theories/C12/Property.v) about the hand-written executable model
+C12/Model.v of Graph.sort (_core.py:3921-4021) / Function.sort / TopologicalSortPass, tied to the code on
+every run by a correspondence check decided inside Coq (case files embed the implementation's outcome and
+the node order of every graph; `agree1`/`agreeP` recompute them with the model under vm_compute and also
+decide the theorems' hypothesis `wf` on every case), plus a property oracle run on the implementation.
+
+LOG
+Model (as written, bugs included): a scope is a tree `Node id inputs subs` (inputs: None | Some producer
+  id; subs: (graph id, node list) per attribute graph, GRAPH/GRAPHS flattened in attribute order).
+  entries_n = RecursiveGraphIterator pre-order; neg index = position in that list; preds_of = producers
+  of inputs that are in the flattened set, then the nodes directly in attribute graphs; depth0 = one
+  increment per recorded predecessor occurrence (Z, so a decrement below zero would not be hidden);
+  kahn = the while loop with explicit fuel = #nodes (None = out of fuel, proved unreachable);
+  pop_max = the heapq contract only ("pop returns the smallest key" = largest original index);
+  the cycle test `len(out) != total` precedes every relinking; relink = Graph.extend on present nodes
+  (move-to-end, one by one).  sort_pass = graph then each function, stop at the first ValueError,
+  `modified` by the zip comparison.
+Theorems (all closed under the global context, no axioms):
+  C12_outcome        wf -> result is Ok or Raise ValueError (fuel suffices: kahn_inv/kahn_total)
+  C12_perm           wf -> same graphs, every new sequence a Permutation of the old one
+  C12_respects_deps  wf, Ok -> in graph g, node n comes after every producer located in g of a value
+                     used by n or by any node nested in n at any depth (desc_n)
+  C12_cycle_iff      wf -> (Raise ValueError <-> the relation `uses` has a cycle (clos_trans x x))
+  C12_cycle_atomic   any Raise -> orders unchanged (no hypothesis)
+  C12_stable         wf, well_scoped, ordered -> sort_graph gr = (Ok tt, orders gr)   [full strength:
+                     succeeds AND unchanged; proof: at the moment x is popped, an unpopped ready node
+                     of the region "y and later" with a larger index exists (Proofs6), and the
+                     post-order is a dependency-respecting arrangement so the run is complete (Proofs7)]
+  C12_deterministic  immediate for a Gallina function; its content is the tie (hash-seed reruns)
+  Nothing is partial.  `wf` = no node / graph object occurs twice in the scope (a subgraph object
+  shared by two attributes is outside the quantifier); its third clause is implied by the first.
+Readings of the English:
+  * "a graph already in such an order is left exactly as it was": needs well-scoped references
+    (producer in the user's graph or an enclosing one) — exactly the property's quantifier.  Without it
+    stability is false for the code AND the model: corpus 04 / Example ex_illscoped_moves (ordered, yet
+    [0,2,3] -> [2,0,3]); not a finding (ill-scoped references are outside the quantifier).  The oracle
+    applies the stability rule only to well-scoped scopes; all other rules to every scope.
+  * atomicity for TopologicalSortPass is per sorted unit: the failing unit and the units after it are
+    unchanged; units before it were already sorted (the pass has no rollback; weaker reading).
+  * "cycle" = cycle of the dependency relation the sort uses (input producers in scope + nodes directly
+    in attribute graphs).  Oracle: ValueError iff no valid arrangement exists (own Kahn on the spec).
+  * Graph.sort called on a nested graph: producers outside the scope are ignored; graphs outside the
+    scope must not change.
+Tie: quick 600 generated + 9 corpus cases (Graph.sort 63%, Function.sort 18%, pass 19%; modes dag /
+  cyclic / illscoped / sorted; depth 0..4; captured producer placed after the control-flow node in
+  ~27% of the cases; repeated / None inputs, multi-output producers; sort on nested graph), every case
+  also rerun in-process with another allocation order, the first 250 rerun in subprocesses under
+  PYTHONHASHSEED=1 and 4242 with shifted allocation orders; thorough: 12000 cases, all rerun under 6
+  hash seeds (2 random).  Measured: quick 9 s, thorough 88 s.
+Modelled, not verified: heapq (contract only), DoublyLinkedSet internals (C11), node.graph bookkeeping
+  and name authority (C01), dict/set iteration order (independent per-graph relinking).
+Finding, fixed in /repo by 86f4e6a (known_findings.d/C12.json, status "fixed"): a GRAPH/GRAPHS-typed
+  reference attribute made sort / RecursiveGraphIterator raise TypeError (attr.value is None).  Since the
+  fix such attributes contribute no predecessors and no nested scope — which is what the model's tree
+  expresses (a node's `subs` lists only attribute graphs that exist), so the theorems cover scopes with
+  them; the generator now emits them as ordinary attributes ("refg"/"refgs") and the former witness is
+  corpus/C12/10_ref_attr_graph.json (11_ adds the GRAPHS variant).
+Mutants of /repo tried in a scratch worktree (VERIF_REPO), quick tier, seed 0 — all but the equivalent
+  one reported VIOLATION with a shrunk concrete replay from the oracle (and correspondence mismatches):
+  M1 heap keyed by +index (min index first)            -> stability: "already ordered but changed [3,0]->[0,3]"
+  M2 cycle check moved after the relinking             -> "order changed although ValueError was raised"
+  M3 nodes of GRAPHS attributes not predecessors       -> "node 4 is not after producer 3" (captured value)
+  M4 predecessor list deduplicated, depth not          -> spurious ValueError on a repeated input
+  M5 producers from another graph skipped              -> cyclic-through-body not detected; captured producer order
+  M6 iterator yields nested nodes before the node      -> NOT reported (seeds 0,1,2): unobservable through
+     list(graph) of any graph — equivalent w.r.t. this property
+  M6b pushed heap key taken from the popped node       -> stability violated; TypeError (node comparison)
+  M7 iterator visits only the first graph of GRAPHS    -> nested graph left unsorted
+  M8 the committed fix 86f4e6a reverted (ref attrs of graph type)  -> TypeError reported by the oracle on corpus 10/11 and generated cases
+Harness note: failing indices of the two case lists are printed by two separate Evals (adding 100000 in
+  unary nat overflowed the stack once a pass case failed).
 """
 
 from __future__ import annotations
@@ -22,7 +92,7 @@ SRC_CORE = os.path.join(REPO, "src", "onnx_ir", "_core.py")
 # graph = {"gid": int, "nodes": [node, ...]}
 # node  = {"id": int, "ins": [ref, ...], "nout": int, "attrs": [attr, ...]}
 # ref   = None | [producer id, output index]
-# attr  = ["g", graph] | ["gs", [graph, ...]] | ["i"] | ["ref"] | ["refg"] (GRAPH-typed reference attribute)
+# attr  = ["g", graph] | ["gs", [graph, ...]] | ["i"] | ["ref"] | ["refg"] | ["refgs"] (GRAPH / GRAPHS-typed reference attributes)
 # kind "graph": units = [g]; Graph.sort() is called on the graph with id `target` (the root or a nested one)
 # kind "function": units = [g]; Function.sort() on a function whose body is g
 # kind "pass": units = [main, f1, ...]; TopologicalSortPass()(model)
@@ -83,9 +153,9 @@ def _gen_tree(rng, depth: int, budget: list, ids: list, gids: list, maxdepth: in
                     node["attrs"].append(["gs", [_gen_tree(rng, depth + 1, budget, ids, gids, maxdepth)
                                                  for _ in range(rng.choice([0, 1, 2]))]])
                 else:
-                    node["attrs"].append([rng.choice(["i", "ref"])])
+                    node["attrs"].append([rng.choice(["i", "ref", "refg", "refgs"])])
         elif rng.random() < 0.15:
-            node["attrs"].append([rng.choice(["i", "ref"])])
+            node["attrs"].append([rng.choice(["i", "ref", "refg", "refgs"])])
         g["nodes"].append(node)
     return g
 
@@ -198,8 +268,10 @@ def build(case: dict):
                     attrs.append(ir.AttrGraphs(f"a{k}", [mk_graph(s, depth + 1) for s in a[1]]))
                 elif a[0] == "i":
                     attrs.append(ir.AttrInt64(f"a{k}", 7))
-                elif a[0] == "refg":      # reference attribute of GRAPH type (only in the known-finding witness)
+                elif a[0] == "refg":      # reference attributes of graph type: no value, contribute nothing
                     attrs.append(ir.RefAttr(f"a{k}", "outer_g", ir.AttributeType.GRAPH))
+                elif a[0] == "refgs":
+                    attrs.append(ir.RefAttr(f"a{k}", "outer_gs", ir.AttributeType.GRAPHS))
                 else:
                     attrs.append(ir.RefAttr(f"a{k}", "outer", ir.AttributeType.INT))
             ins = [None if r is None else values[r[0]][r[1]] for r in n["ins"]]
@@ -546,7 +618,7 @@ def shrink(case: dict, fails) -> dict:
                         n["ins"].insert(i, old)
                 for i in range(len(n["attrs"]) - 1, -1, -1):
                     a = n["attrs"][i]
-                    if a[0] in ("i", "ref") or (a[0] == "gs" and not any(s["nodes"] for s in a[1])) \
+                    if a[0] in ("i", "ref", "refg", "refgs") or (a[0] == "gs" and not any(s["nodes"] for s in a[1])) \
                             or (a[0] == "g" and not a[1]["nodes"]):
                         del n["attrs"][i]
                         if fails(cur):
@@ -639,6 +711,8 @@ def features(ck, case: dict, obs: dict) -> None:
                         if ga == gp and ip > ia:
                             captured_after += 1
     ck.hist("nesting_depth", str(depth))
+    if any(a[0] in ("refg", "refgs") for u in case["units"] for n in walk_nodes(u) for a in n["attrs"]):
+        ck.hist("features", "graph_typed_reference_attribute")
     if captured_after:
         ck.hist("features", "captured_producer_after_control_flow_node")
     if repeated:
